@@ -134,8 +134,13 @@ Inductive e2e_class :=
 | E2CloseEarly     (* stream closed / reset before or in the middle of the exchange *)
 | E2Oversized      (* length prefix above the limit *)
 | E2WrongType      (* a valid message of the wrong type *)
-| E2BadEcho.       (* valid request, then an echo that is not ours *)
-Definition e2e_fails (c : e2e_class) : bool := match c with E2Honest => false | _ => true end.
+| E2BadEcho        (* valid request, then an echo that is not ours *)
+| E2UnknownRole.   (* a complete valid handshake (right key, right signature over role ++ token) whose role
+                      string is none of the three known ones: the peer is enrolled with type -1 and handed
+                      to the topology (inbound: notifier.Connected; outbound: discovery's AddPeers) *)
+Definition e2e_fails (c : e2e_class) : bool :=
+  match c with E2Honest | E2UnknownRole => false | _ => true end.
+Definition e2e_hostile (c : e2e_class) : bool := match c with E2Honest => false | _ => true end.
 
 Inductive entry_input :=
 | EVerifyBid (b : bid_in)
@@ -156,7 +161,11 @@ Inductive entry_input :=
 | EE2EOutbound (has_registry : bool) (cls : e2e_class)
 (* several hostile hosts at once for a while: handshake streams opened and abandoned, a registered
    peer repeating valid handshakes, unregistered peers opening protocol streams *)
-| EE2EStress (has_registry : bool).
+| EE2EStress (has_registry : bool)
+(* p2p.PeerType(t).String() / p2p.FromString on any text; a real Topology fed (Connected, AddPeers,
+   Disconnected, GetPeers) with peers of these types, known or not *)
+| EPeerType (t : Z)
+| ETopologyPeers (types : list Z).
 
 (* ---- where the Go code panics ---------------------------------------------------------------------- *)
 
@@ -205,6 +214,8 @@ Definition panics_gen (f : fixes) (i : entry_input) : bool :=
   | EE2EInbound reg cls => negb (f_metrics f) && negb reg && e2e_fails cls
   | EE2EOutbound reg cls => negb (f_metrics f) && negb reg && e2e_fails cls
   | EE2EStress reg => negb (f_metrics f) && negb reg     (* the abandoned handshakes fail *)
+  | EPeerType _ => false
+  | ETopologyPeers _ => false
   end.
 
 Definition panics : entry_input -> bool := panics_gen fixes_now.
@@ -257,6 +268,8 @@ Definition entry_name (i : entry_input) : string :=
   | EE2EInbound _ _ => "e2e-inbound-handshake"
   | EE2EOutbound _ _ => "e2e-outbound-handshake"
   | EE2EStress _ => "e2e-stress"
+  | EPeerType _ => "peer-type"
+  | ETopologyPeers _ => "topology-peers"
   end%string.
 
 (* the clause key of an observed panic: the three repaired defects keep the key under which they
@@ -286,6 +299,8 @@ Definition hostile (i : entry_input) : bool :=
   | EReadMsg fc | EReadHeader fc => negb (frame_honest fc)
   | EUnmarshal _ _ => true
   | EConnect _ => true
-  | EE2EInbound _ cls | EE2EOutbound _ cls => e2e_fails cls
+  | EE2EInbound _ cls | EE2EOutbound _ cls => e2e_hostile cls
   | EE2EStress _ => true
+  | EPeerType t => (t <? 0)%Z || (2 <? t)%Z
+  | ETopologyPeers ts => existsb (fun t => (t <? 0)%Z || (2 <? t)%Z) ts
   end.
